@@ -55,6 +55,21 @@ def depths(code):
     return depth
 
 
+def _owned_by_live_generator(frame):
+    """Is this the frame of a generator-like object that has not finished?  (A frame that
+    finished by an exception keeps its last f_lasti, e.g. at a YIELD_FROM, but owns nothing.)"""
+    import gc
+
+    for r in gc.get_referrers(frame):
+        for attr in ("gi_frame", "cr_frame", "ag_frame"):
+            try:
+                if getattr(r, attr, None) is frame:
+                    return True
+            except Exception:
+                pass
+    return False
+
+
 SELF_CHECKS = [0]
 _opnames = {}
 
@@ -85,7 +100,7 @@ def owned_slot_range(frame, impl):
         return base, 0  # finished: owns nothing any more
     if ifr.stacktop != -1:
         n = ifr.stacktop - nlp
-        if frame.f_lasti >= 0:
+        if frame.f_lasti >= 0 and _owned_by_live_generator(frame):
             ins = _opname_at(co, frame.f_lasti)
             d = depths(co).get(frame.f_lasti)
             if ins == "YIELD_VALUE" and d is not None:
@@ -126,7 +141,7 @@ def live_slots(frame, raw_struct, finished):
         n = (raw.f_stacktop - raw.f_valuestack) // WS
         # self-check of the static depth computation, whenever the interpreter does record the
         # depth: a frame suspended at YIELD_VALUE / YIELD_FROM has popped the yielded value
-        if frame.f_lasti >= 0 and not finished:
+        if frame.f_lasti >= 0 and not finished and _owned_by_live_generator(frame):
             ins = _opname_at(frame.f_code, frame.f_lasti)
             d = depths(frame.f_code).get(frame.f_lasti)
             if ins in ("YIELD_VALUE", "YIELD_FROM") and d is not None:
